@@ -287,13 +287,13 @@ fn unique_case(ctx: &mut Ctx, x: &Series) {
 
 fn main() {
     let mut ctx = Ctx::from_args("C14");
-    let nc = ctx.budget(200, 3000);
+    let nc = ctx.cbudget(200, 3000);
     for k in 0..nc {
         if let Some(mut rng) = ctx.sweep_case() {
             cut_suite(&mut ctx, &mut rng, k % 9);
         }
     }
-    let nu = ctx.budget(20000, 400000);
+    let nu = ctx.cbudget(20000, 400000);
     for _ in 0..nu {
         if let Some(mut rng) = ctx.random_case() {
             let x = run_series(&mut rng);
